@@ -169,7 +169,7 @@ def oracle_roundtrip(fields, payload):
         return "decode(encode(m)) raised"
     got = [d.node_id, d.child_id, d.type, d.ack, d.sub_type, d.payload]
     if got != list(fields) + [payload]:
-        return f"decode(encode(m)) = {got!r}"
+        return "decode(encode(m)) = " + repr([x if isinstance(x, str) else dec(x)[:40] for x in got])
     if not line.endswith("\n") or line[:-1].endswith("\n") or line.count(";") != 5:
         return "encoded line is not canonical"
     return None
@@ -214,7 +214,8 @@ def oracle_copy(fields, payload, kw):
     want.update(kw)
     got = {k: getattr(c, k) for k in KW_NAMES}
     if got != want:
-        return f"copy fields {got!r} != {want!r}"
+        show = lambda d: {k: (v if isinstance(v, str) else dec(v)[:40]) for k, v in d.items()}
+        return f"copy fields {show(got)!r} != {show(want)!r}"
     return None
 
 
